@@ -25,7 +25,20 @@ func caseGen() *rapid.Generator[Case] {
 	key := rapid.Custom(func(t *rapid.T) gen.Item {
 		return gen.S(gen.StringOf([]string{"k", "h1", "h2", "h3", "name", "a-long-header-text", "x y"}, 1, 2).Draw(t, "key"))
 	})
+	// texts shared by the tables of different goroutines (state keyed by cell text would collide), as plain
+	// strings in one table and as items declaring another width or height in the next
+	shared := []string{"\u2713", "\u00e9t\u00e9", "\u6f22\u5b57", "ok", "a\nb", "\u2713 done", "n/a", "\U0001f469\u200d\U0001f4bb"}
 	item := rapid.Custom(func(t *rapid.T) gen.Item {
+		switch rapid.IntRange(0, 9).Draw(t, "shared") {
+		case 0, 1, 2:
+			return gen.S(rapid.SampledFrom(shared).Draw(t, "text"))
+		case 3:
+			return gen.Item{K: "if", M: gen.MString | gen.MWidth, S: gen.Str(rapid.SampledFrom(shared[:4]).Draw(t, "text")), W: rapid.IntRange(0, 9).Draw(t, "w")}
+		case 4:
+			return gen.Item{K: "if", M: gen.MError | gen.MHeight, E: gen.Str(rapid.SampledFrom(shared).Draw(t, "text")), H: rapid.IntRange(0, 4).Draw(t, "h"), P: true}
+		case 5:
+			return gen.Item{K: "f64", FS: rapid.SampledFrom([]string{"nan", "+inf", "", ""}).Draw(t, "fs"), N: 6}
+		}
 		if rapid.IntRange(0, 4).Draw(t, "mixed") == 0 {
 			return gen.NoAddressText(gen.AnyItem(gen.TokWidth, 1).Draw(t, "any"))
 		}
